@@ -22,6 +22,10 @@ func sample(units []*rt.Unit, rng *rand.Rand, keep func(*rt.Unit) bool, frac flo
 
 func init() {
 	families["C05"] = &rt.Family{Prop: "C05", Module: "MC_C05", PackSize: 8,
+		Unbounded: []rt.ApaCheck{
+			{Module: "BoundsInd", Inv: "Agree", Expect: "NoError", What: "for ALL integers: the transcribed NormalizeBounds + genBoundary accept x iff x satisfies every stated bound"},
+			{Module: "BoundsInd", Inv: "AgreeTie", Expect: "Error", What: "the comparison before fix ee8f4ce (> / < instead of >= / <=) disagrees on a tie: the deviation switch is necessary"},
+		},
 		Rule: "units = every combination of minimum/maximum (absent or one of 4 constants), exclusiveMinimum/exclusiveMaximum (absent, true, false or one of 4 constants), multipleOf (absent or 3 values), integer|number, 6 positions; documents = every half step from below the smallest to above the largest constant, absent, null. distinct_nontrivial = distinct (unit, document) pairs with a definite reference verdict",
 		Select: func(units []*rt.Unit, tier string, rng *rand.Rand) []*rt.Unit {
 			if tier == "thorough" {
